@@ -886,6 +886,10 @@ func runOne(r *sim.Run) {
 		installWrappers()
 	}
 	t := r.T
+	if r.Prop == "C04" && t.Prob(1, 4, "refine_table_arm") {
+		runRefineGas(r)
+		return
+	}
 	sweep := r.Params["mode"] == "sweep" || (r.Prop == "C04" && t.Prob(1, 3, "sweep")) || (r.Prop == "C10" && t.Prob(1, 10, "sweep"))
 	sc := genScenario(t, r, sweep)
 	ck := &checker{r: r, sc: sc, tag: "gas=unlimited"}
@@ -914,7 +918,9 @@ func runOne(r *sim.Run) {
 		er := execute(sc, g)
 		ck2 := &checker{r: r, sc: sc, tag: fmt.Sprintf("gas=%d", g)}
 		ck2.checkRun(er)
-		if !r.Violated() && r.Wants("C04") && sc.end != endLoop {
+		// (a run with MORE gas than the reference run may legitimately get further: a transfer whose gas argument
+		// exceeds what the reference run had left is affordable with a limit near 2^63)
+		if !r.Violated() && r.Wants("C04") && sc.end != endLoop && g <= refGas {
 			ck2.comparePrefix(ref, er)
 		}
 		r.Count("fault:gas_limit_abort_point", 1)
